@@ -20,7 +20,7 @@ classdef("Dominance", fields={})
 classdef("ParetoDominance", bases=["Dominance"], fields={})
 classdef("EpsilonDominance", bases=["Dominance"], fields={"epsilons": "List[Real]"})
 
-classdef("Archive", fields={"_dominance": "Ref[Dominance]", "_contents": "List[Ref[Individual]]"})
+classdef("Archive", fields={"_dominance": "Ref[Dominance]", "_contents": "List[Ref[Individual]]"}, truth_len="_contents")
 
 classdef("Parameter", rec=True, optional=["bounds", "precision", "parameter_type", "initial_value", "tol"],
          fields={"bounds": "List[Real]", "precision": "Real", "tol": "Real", "initial_value": "Real", "name": "Str", "parameter_type": "Str"})
@@ -29,7 +29,8 @@ classdef("Options", rec=True,
                  "tol": "Real", "bounds": "Opt[List[Real]]", "n_iterations": "Int", "verbose_level": "Int"})
 classdef("Algorithm", fields={"parameters": "List[Ref[Parameter]]", "options": "Ref[Options]", "problem": "Ref[Problem]",
                               "evaluator": "Ref[Evaluator]", "uuid": "Int"})
-classdef("GeneticAlgorithm", bases=["Algorithm"], fields={})
+classdef("GeneticAlgorithm", bases=["Algorithm"],
+         fields={"selector": "Ref[TournamentSelector]", "crossover": "Ref[SimulatedBinaryCrossover]", "mutator": "Ref[PmMutator]"})
 classdef("SwarmAlgorithm", bases=["GeneticAlgorithm"],
          fields={"dominance": "Ref[ParetoDominance]", "leaders": "Ref[Archive]", "archive": "Ref[Archive]",
                  "r1_min": "Real", "r1_max": "Real", "r2_min": "Real", "r2_max": "Real",
@@ -70,3 +71,10 @@ classdef("Results", fields={"problem": "Ref[Problem]"})
 classdef("Selector", fields={"parameters": "List[Ref[Parameter]]", "comparator": "Ref[Dominance]", "dominance": "Ref[Dominance]"})
 classdef("TournamentSelector", bases=["Selector"], fields={})
 classdef("CopySelector", bases=["Selector"], fields={})
+classdef("Operator", fields={})
+classdef("Mutator", bases=["Operator"], fields={"parameters": "List[Ref[Parameter]]", "probability": "Real"})
+classdef("PmMutator", bases=["Mutator"], fields={"distribution_index": "Real"})
+classdef("UniformMutator", bases=["Mutator"], fields={"perturbation": "Real"})
+classdef("NonUniformMutation", bases=["Mutator"], fields={"perturbation": "Real", "max_iterations": "Int"})
+classdef("Crossover", bases=["Operator"], fields={"parameters": "List[Ref[Parameter]]", "probability": "Real"})
+classdef("SimulatedBinaryCrossover", bases=["Crossover"], fields={"distribution_index": "Real"})
